@@ -14,6 +14,7 @@ import (
 
 	"github.com/advancedclimatesystems/gonnx/ops"
 	"github.com/advancedclimatesystems/gonnx/ops/opset13"
+	"gorgonia.org/tensor"
 )
 
 type reuseItem struct {
@@ -165,12 +166,33 @@ func (r *reusePass) run() []reuseVerdict {
 		if initObs.Kind != "value" {
 			continue // refused at Init: the per-case modes already decide these
 		}
+		// results the caller still holds: the last one, and the last one of every (element type, shape) signature
+		type held struct {
+			c    *Case
+			text string
+			res  []tensor.Tensor
+			at   int
+		}
+		heldBySig := map[string]*held{}
+		var last *held
+		recheck := func(h *held, now int) *reuseVerdict {
+			if h == nil || h.res == nil {
+				return nil
+			}
+			o := guard(func() Observation { return valueObs(h.res) })
+			if v := Verdict(h.c, o); v != "pass" && !strings.HasPrefix(v, "known:") {
+				h.res = nil
+				return &reuseVerdict{h.c.Prop, h.text, fmt.Sprintf("mode=reuse (result of application %d of one %s instance, read again after application %d) %s | observed: %s", h.at, h.c.Op, now, v, o.Short())}
+			}
+			return nil
+		}
 		for i, it := range items {
 			c := it.c
 			inputs, err := mkInputs(c)
 			if err != nil {
 				continue
 			}
+			var results []tensor.Tensor
 			obs := guard(func() Observation {
 				v, err := op.ValidateInputs(inputs)
 				if err != nil {
@@ -180,9 +202,28 @@ func (r *reusePass) run() []reuseVerdict {
 				if err != nil {
 					return observeErr(err)
 				}
+				results = res
 				return valueObs(res)
 			})
 			v := Verdict(c, obs)
+			sig := ""
+			if v == "pass" && obs.Kind == "value" {
+				for _, t := range obs.Value {
+					if t != nil {
+						sig += fmt.Sprintf("%v%v;", t.Dtype(), t.Shape())
+					}
+				}
+			}
+			// an earlier result is a value the caller owns: a later application of the same instance leaves it as it was
+			for _, h := range []*held{last, heldBySig[sig]} {
+				if rv := recheck(h, i+1); rv != nil {
+					out = append(out, *rv)
+				}
+			}
+			if sig != "" {
+				h := &held{c, it.text, results, i + 1}
+				last, heldBySig[sig] = h, h
+			}
 			if v == "pass" || len(v) > 6 && v[:6] == "known:" {
 				out = append(out, reuseVerdict{c.Prop, it.text, "pass"})
 				continue
